@@ -535,6 +535,15 @@ class Evaluator:
                     self._invoke(m, st, [idx, v], {}, None, base, node)
                     return
             idx = self.eval_index(t.slice, st, base)
+            through = self._view_store(t, base, idx, st) if isinstance(t.value, ast.Name) else None
+            if through == 'unknown':
+                self.issue(st, node, f"store through the view {ast.unparse(t.value)} of an array that is not held by a local name")
+            elif through is not None:
+                # `view[...] = v` / `view[:] = v`: the store lands in the parent array, at the view's window
+                pname, pidx = through
+                t = ast.Subscript(value=ast.copy_location(ast.Name(id=pname, ctx=ast.Load()), t), slice=t.slice, ctx=ast.Store())
+                base, idx = st.env[pname], pidx
+                self.__dict__.setdefault('_view_written', set()).add(pname)
             self.emit('store', st, node, target=ast.unparse(t.value), base=base, index=idx, value=v, aug=aug, whole=False,
                       target_expr=t.value)
             newv = Term('stored', (base,), uid=fresh_serial(), kind=getattr(base, 'kind', 'unknown'))
@@ -553,6 +562,50 @@ class Evaluator:
             self.unsupported(st, node, 'starred assignment')
         else:
             self.unsupported(st, node, f"assignment target {type(t).__name__}")
+
+    @staticmethod
+    def _reread_views(v: Val, old: Val, new: Val) -> Val:
+        """`v` with every element read of the array `old` (a whole array, known by identity) replaced by the same element of `new`"""
+        if not (isinstance(old, Num) and isinstance(new, Num) and old.length is not None and new.length is not None and isinstance(v, Val)):
+            return v
+        oa = list(old.r.atoms())
+        if len(oa) != 1 or not (old.r == Rat.atom(oa[0])) or sym.ATOMS.head(oa[0]) != 'el' or not (sym.ATOMS.args(oa[0])[1] == sym.idx()):
+            return v
+        ref = sym.ATOMS.args(oa[0])[0]
+        mp = {}
+        for r in v.rats():
+            for a in sym.all_atoms(r):
+                if sym.ATOMS.head(a) == 'el' and (sym.ATOMS.args(a)[0] is ref or sym.ATOMS.args(a)[0] == ref) and isinstance(sym.ATOMS.args(a)[1], Rat):
+                    mp[a] = new.at(sym.ATOMS.args(a)[1]).r
+        if not mp:
+            return v
+        return v.subst(lambda r: sym.subst(r, mp))
+
+    def _view_store(self, t, base, idx, st):
+        """(parent name, slice index) when `t` = `name[...]` / `name[:]` and `name` holds a view (basic slice) of an ndarray held by a local name;
+        'unknown' when it is a view of something no local name holds; None when `name` is not a view"""
+        if not (isinstance(base, Num) and base.length is not None and getattr(base, 'view', False)):
+            return None
+        whole = (isinstance(idx, Const) and idx.v is Ellipsis) or (isinstance(idx, Term) and idx.head == 'slice' and all(
+            isinstance(a_, Const) and a_.v is None for a_ in idx.args))
+        if not whole:
+            return None
+        ats = list(base.r.atoms())
+        if len(ats) != 1 or not (base.r == Rat.atom(ats[0])) or sym.ATOMS.head(ats[0]) != 'el':
+            return 'unknown'
+        ref, ix = sym.ATOMS.args(ats[0])
+        off = ix - sym.idx()
+        if sym.idx_atom() in sym.all_atoms(off):
+            return 'unknown'
+        for nm, w in st.env.items():
+            if nm == t.value.id or not (isinstance(w, Num) and w.length is not None and w.kind == 'ndarray'):
+                continue
+            wa = list(w.r.atoms())
+            if len(wa) == 1 and w.r == Rat.atom(wa[0]) and sym.ATOMS.head(wa[0]) == 'el':
+                wref, wix = sym.ATOMS.args(wa[0])
+                if (wref is ref or wref == ref) and wix == sym.idx():
+                    return nm, Term('slice', (Num(off), Num(off + base.length), Const(None)))
+        return 'unknown'
 
     def _whole_store(self, base, idx, v) -> Optional[Val]:
         """`a[:] = v` / `a[:len(a)] = v` (also as `+=`, where v is already a[...] + rhs) with v of the same extent: a holds the elements of v"""
@@ -1064,17 +1117,35 @@ class Evaluator:
         mark_events = len(self.events)
         mark_issues = len(self.issues)
         carried: Dict[str, Val] = {}
+        view_parents: List[str] = []
         for attempt in (0, 1):
             body = st.clone()
             fnames = self.havoc(body, names, stores, lid, 'in', targets=tnames)
             body.env.update(carried)
+            elem_k = elem
+            for nm in view_parents:
+                # views taken before the loop (e.g. by a lazily evaluated generator) show what the array holds now: re-read them from the loop state
+                elem_k = self._reread_views(elem_k, st.env.get(nm), body.env.get(nm))
             self.loops.append(ctx)
+            outer_vw = self.__dict__.get('_view_written')
+            self._view_written = set()
             try:
-                self.assign(s.target, elem, body, s)
+                self.assign(s.target, elem_k, body, s)
                 entry_env = flat_env(body.env, body.heap)
                 self.exec_block(s.body, body)
             finally:
                 self.loops.pop()
+                written_through = self._view_written
+                self._view_written = (outer_vw | written_through) if outer_vw is not None else written_through
+            have = {ast.unparse(x_) for x_ in stores if not isinstance(x_, tuple)}
+            extra = sorted(nm for nm in written_through if nm in st.env and nm not in have)
+            if extra and attempt == 0:
+                # the body wrote an array through a view of it: that array is loop state, which the syntactic pre-pass could not know
+                stores = list(stores) + [ast.Name(id=nm, ctx=ast.Load()) for nm in extra]
+                view_parents = extra
+                del self.events[mark_events:]
+                del self.issues[mark_issues:]
+                continue
             if attempt == 1 or True:
                 self.loop_log = [e_ for e_ in self.loop_log if e_['lid'] != lid]
                 self.loop_log.append({'node': s, 'lid': lid, 'pre': st.clone(), 'entry': dict(entry_env), 'end': body, 'cond': Const(True), 'depth': len(self.loops),
@@ -1274,6 +1345,9 @@ class Evaluator:
             return self.element_of(a.args[0], idx)
         if isinstance(a, Tup):
             return Term('item', (a, Num(idx)))
+        if isinstance(a, Term) and a.head == 'listcomp' and len(a.args) == 3 and isinstance(a.args[0], (Term, Tup)) and isinstance(a.args[2], Num):
+            # item i of [f(c) | c < n] whose items are arrays: the comprehension variable (its own symbol) becomes i, the items' element index stays
+            return a.args[0].subst(lambda r: sym.subst(r, {_single_atom(a.args[2].r): idx}))
         if isinstance(a, Term) and a.head == 'listcomp' and len(a.args) == 2 and isinstance(a.args[0], (Term, Tup)):
             # element i of [f($i) | $i < n] whose items are not numbers (slices, tuples, ...): the item expression at i
             return a.args[0].subst(lambda r: sym.subst(r, {sym.idx_atom(): idx}))
@@ -1808,6 +1882,10 @@ class Evaluator:
         back = {_single_atom(csym): sym.idx()}
         if isinstance(body, Num) and body.length is None:
             return Num(sym.subst(body.r, back), length, 'list')
+        ca = _single_atom(csym)
+        if any(isinstance(x_, Num) and x_.length is not None and (ca in sym.all_atoms(x_.r) or ca in sym.all_atoms(x_.length)) for x_ in walk_vals(body)):
+            # items that are arrays have an element index of their own: the comprehension variable keeps its own symbol (third argument)
+            return Term('listcomp', (body, Num(length) if length is not None else NONE, Num(csym)), kind='list')
         t = Term('listcomp', (body.subst(lambda r: sym.subst(r, back)), Num(length) if length is not None else NONE), kind='list')
         return t
 
@@ -2243,7 +2321,11 @@ class Evaluator:
                         l = C(0) if isinstance(lo, Const) else (nb.length + lo.r if neg_const_index(lo.r) else lo.r)
                         h = nb.length if isinstance(hi, Const) else (nb.length + hi.r if neg_const_index(hi.r) else hi.r)
                         r = sym.subst(nb.r, {sym.idx_atom(): sym.idx() + l})
-                        return Num(r, h - l, nb.kind)
+                        out_ = Num(r, h - l, nb.kind)
+                        if nb.kind == 'ndarray':
+                            out_.view = True        # a basic slice of an ndarray is a view: a whole-array store into it writes the parent
+                        out_.dt = getattr(nb, 'dt', None)
+                        return out_
                 if isinstance(step, Num) and step.length is None and not (step.is_const() and step.const() <= 0) and isinstance(hi, Const) and hi.v is None \
                         and (isinstance(lo, Const) or (isinstance(lo, Num) and lo.length is None and not neg_const_index(lo.r))):
                     # a[lo::step] with a (positive) step: element i is a[lo + step*i]; ceil((len - lo) / step) elements
@@ -2401,6 +2483,18 @@ class Evaluator:
                 return self.opaque_call(fi, st, pos, kw, star_kw, fn.self_val, node)
             if fn.fkind == 'class':
                 ci: ClassInfo = fn.ref
+                members = [m_ for m_ in self.class_constants(ci).values() if isinstance(m_, Term) and m_.head == 'enum']
+                if members and len(pos) == 1 and not kw and star_kw is None:
+                    # EnumClass(value): the member with that value; ValueError when there is none
+                    if isinstance(pos[0], Term) and pos[0].head == 'enum' and veq(pos[0].args[0], members[0].args[0]):
+                        return pos[0]
+                    if isinstance(pos[0], Const):
+                        for m_ in members:
+                            if m_.args[2].v == pos[0].v and type(m_.args[2].v) is type(pos[0].v):
+                                return m_
+                        raise _PyRaise('ValueError')
+                    self.issue(st, node, f"{ci.qualname}(<value>): look-up of an enumeration member by a value that is not a literal here")
+                    return Term('new:' + ci.qualname, pos, kw, kind='enum', node=node)
                 init = self.prog.find_method(ci, '__init__')
                 if self.inline_class(ci):
                     obj = Obj(ci, fresh_serial())
